@@ -200,7 +200,7 @@ def blackbox_part(ck, quick):
     dirs = make_tree()
     big = os.path.join(WORK, "big"); os.makedirs(big)
     for i in range(200):
-        sub = os.path.join(big, "s%d" % (i % 7)); os.makedirs(sub, exist_ok=True)
+        sub = os.path.join(big, ("s%d" % (i % 7)) if i % 11 else (".dot/sub" if i % 2 else "s1/..data")); os.makedirs(sub, exist_ok=True)     # -r descends into dot-named directories too
         data = [b"--abcd--abcd--", b"nothing", b"", b"xxy xy efgh", yv.blob("PE32_FILE")][i % 5] + (b"%d" % i if i % 5 != 2 else b"")
         open(os.path.join(sub, "file%03d" % i), "wb").write(data)
     rules = os.path.join(WORK, "rules.yar")
